@@ -1,6 +1,7 @@
 import TongoModel.Shard
 import TongoGen.Shards
 import TongoProofs.Lemmas.GoInt
+import TongoProofs.Lemmas.ShardAlg
 /-! Property C17 — account addresses and shard ids keep their meaning across all forms.
 Property theorems only (helper lemmas live in TongoProofs/Lemmas).
 
@@ -61,7 +62,64 @@ theorem gen_convertShardIdent (b : BitVec 8) (wc : BitVec 32) (p : BitVec 64) :
 /-- tie: the regenerated anycast rewrite arithmetic of ton.AccountIDFromTlb equals the hand model -/
 theorem gen_anycastRewrite (a d r : BitVec 32) : Gen.Shards.anycastRewrite a d r = anycastRewrite a d r := rfl
 
-/-! ## 2. shard algebra -/
+/-! ## 2. shard algebra (hand model = regenerated definitions by section 1)
+
+`shardLen m = 63 - ctz m` is the prefix length of the shard id `m` (0 for the full shard `0x8000…`, up to 63), bit `i`
+"MSB first" is `getMsbD i`; `isLeft s` = the bit just above the lowest set bit is 0. -/
+
+/-- `Encode (ParseShardID m) = m` for every non-zero `m` (and `Encode` does not panic on a parsed shard) -/
+theorem shard_roundtrip (m : BitVec 64) (h : m ≠ 0) : (parseShardID m).bind encode = some m :=
+  Shard.shard_roundtrip m h
+
+/-- an account matches a shard exactly when the shard's `shardLen` prefix bits are the first bits of the address —
+for every prefix length 0 (the full shard `0x8000…`, matching everything) … 63 -/
+theorem match_is_prefix (m a : BitVec 64) (h : m ≠ 0) :
+    ∃ s, parseShardID m = some s ∧ (matchPrefix s a = true ↔ ∀ i, i < shardLen m → a.getMsbD i = m.getMsbD i) :=
+  Shard.match_is_prefix m a h
+
+/-- MatchBlockID is symmetric containment: it holds exactly when the shorter of the two prefixes is a prefix of the
+other shard id; a zero block shard never matches -/
+theorem match_block (m b : BitVec 64) (hm : m ≠ 0) (hb : b ≠ 0) :
+    ∃ s, parseShardID m = some s ∧
+      (matchBlock s b = true ↔ ∀ i, i < min (shardLen m) (shardLen b) → m.getMsbD i = b.getMsbD i) :=
+  Shard.match_block m b hm hb
+
+/-- a zero block shard id matches no shard -/
+theorem match_block_zero (s : ShardID) : matchBlock s 0 = false := Shard.match_block_zero s
+
+/-- `shardParent (shardChild s side) = s` whenever the lowest set bit of `s` is above bit 0 (prefix length ≤ 62) -/
+theorem parent_child_inverse (s : BitVec 64) (l : Bool) (h : s.getLsbD 0 = false) :
+    shardParent (shardChild s l) = s := Shard.parent_child s l h
+
+/-- `shardChild (shardParent s) (side of s) = s` for every shard except the full shard `0x8000…` and 0 -/
+theorem child_parent_inverse (s : BitVec 64) (h0 : s ≠ 0) (h1 : s ≠ 0x8000000000000000#64) :
+    shardChild (shardParent s) (isLeft s) = s := Shard.child_parent s h0 h1
+
+/-- a child's prefix is the parent's prefix extended by one bit: 0 for the left child, 1 for the right child -/
+theorem child_extends_prefix (s : BitVec 64) (l : Bool) (h0 : s ≠ 0) (h : s.getLsbD 0 = false) :
+    shardLen (shardChild s l) = shardLen s + 1 ∧
+    (∀ i, i < shardLen s → (shardChild s l).getMsbD i = s.getMsbD i) ∧
+    (shardChild s l).getMsbD (shardLen s) = !l :=
+  ⟨Shard.child_len s l h0 h, Shard.child_prefix s l h0 h⟩
+
+/-- convertShardIdent for prefix lengths 0..60 (proved for 0..63): a prefix confined to its top `n` bits becomes the shard
+id that parses back to exactly that prefix and mask, with prefix length `n` -/
+theorem convert_shard_ident (pfx : BitVec 64) (n : Nat) (hn : n ≤ 60) (hp : pfx &&& (BitVec.allOnes 64 >>> n) = 0) :
+    parseShardID (convertShardIdent pfx (BitVec.ofNat 8 n)) = some ⟨pfx, BitVec.allOnes 64 <<< (64 - n)⟩ ∧
+    shardLen (convertShardIdent pfx (BitVec.ofNat 8 n)) = n := Shard.convert_shard_ident pfx n hn hp
+
+/-- the anycast rewrite for depths 1..30: the top `d` bits of the address prefix become `rewrite_pfx`, the other
+`32 - d` bits are kept -/
+theorem anycast_rewrite (a r : BitVec 32) (d : Nat) (h1 : 1 ≤ d) (h30 : d ≤ 30) (hr : r.toNat < 2 ^ d) :
+    (anycastRewrite a (BitVec.ofNat 32 d) r) >>> (32 - d) = r ∧
+    (anycastRewrite a (BitVec.ofNat 32 d) r) &&& (BitVec.allOnes 32 >>> d) = a &&& (BitVec.allOnes 32 >>> d) :=
+  Shard.anycast_rewrite a r d h1 h30 hr
+
+/-- hypotheses are satisfiable: shard `0x4800…` (prefix 0100, length 4) -/
+example : shardParent (shardChild 0x4800000000000000#64 true) = 0x4800000000000000#64 :=
+  parent_child_inverse _ _ (by decide)
+example : shardChild (shardParent 0x4c00000000000000#64) (isLeft 0x4c00000000000000#64) = 0x4c00000000000000#64 :=
+  child_parent_inverse _ (by decide) (by decide)
 
 /-- the two children of a shard are placed symmetrically around it (64-bit wrap-around arithmetic) -/
 theorem children_symmetric (s : BitVec 64) : shardChild s true + shardChild s false = s + s := by
